@@ -35,6 +35,17 @@ theorem C17_tables :
     getArm true = some .init ∧ getArm false = none ∧ getBlocks = false ∧
     uncheckedArm = .init ∧ newCtor = (false, .uninit) ∧ withValueCtor = (true, .init) := by decide
 
+/-- `get_or_init` has no code path of its own: it forwards to `get_or_try_init` with the initialiser
+wrapped in `Ok` (error type `Infallible`). -/
+theorem C17_get_or_init_forwards : getOrInitForwards = true := by decide
+
+/-- Hence a `get_or_init` call whose initialiser returns or panics *is* the `get_or_try_init` call with
+that outcome, and every theorem below covers it (in particular `C17_failure_keeps_seed` for a panic
+passed through `get_or_init`). -/
+theorem C17_infallible_is_init (k : OKind) (d : Nat) (hk : k ≠ .err) :
+    Call.infallible ⟨k, d⟩ = some (.init ⟨k, d⟩) := by
+  simp [Call.infallible, C17_get_or_init_forwards, hk]
+
 /-! ## Reachable states -/
 
 /-- The state after schedule `σ`, from `OnceInitCell::new(seed c)` shared by threads with call lists `calls`. -/
